@@ -61,11 +61,11 @@ def build():
 """, at=[("before_stmt", "Ok(signature)", 1, """
         proof {
             let n = ec_size(self.key_type);
-            assert(r_before@ =~= crate::openssl::bn::left_pad(sig0.r.be@, n));
-            assert(s_before@ =~= crate::openssl::bn::left_pad(sig0.s.be@, n));
+            assert(r_before@ =~= crate::openssl::bn::left_pad(sig0.r.be@, n)); //@C15.ecdsa_r_s_left_padded
+            assert(s_before@ =~= crate::openssl::bn::left_pad(sig0.s.be@, n)); //@C15.ecdsa_r_s_left_padded
         }"""),
          ("before_stmt", "let mut signature = r;", 1, "let ghost r_before = r; let ghost s_before = s; let ghost sig0 = signature;")],
-        rewrites=[("T-ITER", r"s\.resize_with\((?P<n>[^,]*), \|\| 0\);", r"crate::openssl::bn::resize_zero(&mut s, \g<n>);", 2)])})
+        rewrites=[("T-ITER", r"s\.resize_with\((?P<n>[^,]*), \|\| 0\);", r"crate::openssl::bn::resize_zero(&mut s, \g<n>);", None)])})
     u.verify(K, "KeyPair::get_jwk_public_key", "crypto", props=["C15"], fns={"get_jwk_public_key": FnSpec(ret="r", sig="""
     requires self.wf(),
 """)})
